@@ -60,8 +60,27 @@ def check(pid, tier):
         t = traces[k]
         path = save_replay(pid, {"kind": "meta-case", "verdict": verdict, "trace": t}) if len(violations) < 10 else "(not saved)"
         violations.append((pid, f"case rejected: {verdict} case={jdump(t['case'])[:400]} obs={jdump(t['obs'])[:300]}", path))
+    # metadata that components derive with transfer rules: after connect the exchanged infos of the slots
+    # carry what the other side declared, untouched by later rules (ConnectOps.OutM / InM)
+    shapes = tlc.emit("ConnectEmit", {"FAMILY": "chain3"})
+    if tier == "quick":
+        shapes = rng.sample(shapes, min(len(shapes), 600))
+    tr = [t for t in run_cases("connect_run", "run_case", shapes) if "harness_error" not in t]
+    acc, tot, bad, gen, _ = tlc.validate("Connect_Trace", tr)
+    ev.add_traces("Connect_Trace/metadata-provenance (chain3)", acc, tot, gen)
+    for k, verdict in sorted(bad.items()):
+        if verdict.split("@")[0] != "metadata-provenance":
+            continue                                   # every other clause of that monitor belongs to C06
+        path = save_replay(pid, {"kind": "connect-trace", "verdict": verdict, "trace": tr[k]}) if len(violations) < 10 else "(not saved)"
+        violations.append((pid, f"metadata derived by transfer rules: {verdict} end={tr[k]['end']}", path))
     return finish(pid, ev, out_lines, violations, machinery)
 
 
 def replay(pid, path):
+    import json
+    with open(path) as f:
+        kind = json.load(f).get("kind")
+    if kind == "connect-trace":
+        from . import check_c06
+        return check_c06.replay(pid, path)
     return replay_fn(pid, path, "Meta_Trace", RUNNER, lambda v, c: "C07")
